@@ -582,7 +582,7 @@ def run(tier, replay=None):
             if big:
                 # many alleles: labels beyond int8 (the samplers hand over int32 - `greedy_caller` / `mcmc_sampler` - or
                 # int16 - `PedigreeCallingMCMC.fit` - genotypes; the labels come from `np.where`, int64)
-                n = r.choice([7, 20, 64, 127, 128, 129, 130, 200, 200, r.randint(7, 200), r.randint(100, 200)])
+                n = r.choice([7, 64, 127, 128, 129, 130, 200, 200, 200, 257, r.randint(7, 200), r.randint(129, 200), r.randint(129, 200)])
                 p_mask = r.choice([0.05, 0.35, 0.8])
                 dtype = r.choice([np.int16, np.int32, np.int32, np.int64])
                 chk.count(f"trace:big-alleles dtype={np.dtype(dtype).name}")
@@ -605,6 +605,8 @@ def run(tier, replay=None):
             top = len(labels) - 1
             g = np.array([[[top if (big and r.random() < 0.3) else r.randrange(len(labels)) for _ in range(ploidy)]
                            for _ in range(steps)] for _ in range(chains)], dtype=dtype)
+            if big:
+                g[0, 0, 0] = top                     # the highest retained label occurs
             base = GenotypeAllelesMultiTrace(g, np.zeros((chains, steps)), len(labels))
             flat = [int(x) for x in g.reshape(-1)]
             n_obs = chains * steps
@@ -893,9 +895,9 @@ class CliRuns:
 
 
 def cli(chk, drv, r, tier, work, S, pysam):
-    n_sets = {"warm": 1, "quick": 2, "thorough": 8}[tier]
+    n_sets = {"warm": 1, "quick": 4, "thorough": 24}[tier]
     n_asm = {"warm": 1, "quick": 10, "thorough": 18}[tier]            # configurations per assemble output
-    n_asm_sets = {"warm": 1, "quick": 1, "thorough": 4}[tier]
+    n_asm_sets = {"warm": 1, "quick": 2, "thorough": 12}[tier]
     runs = CliRuns(chk, drv, r, S, pysam)
     mcmc = runs.mcmc
     for d in range(n_sets):
